@@ -1,5 +1,6 @@
 """Shared helpers: run core programs through implementation and model, canonicalise."""
 import json
+import re
 import struct
 import vlib
 import gen_core as G
@@ -52,6 +53,55 @@ EXACT_OTHER = ('filter function must return a boolean, got ', 'function must ret
                'array item must null or array, got ', 'array item ')
 
 
+# `Other` messages of the pure builtins (lean/RsjModel/EvalPure.lean) that embed a formatted number or a `{:?}`-quoted
+# character: compared up to that part -- the model emits the canonical text on the right
+OTHER_CANON = [
+    (re.compile(r'^`from` value .* is not a non-negative integer$', re.S), '`from` value'),
+    (re.compile(r'^`len` value .* is not a non-negative integer$', re.S), '`len` value'),
+    (re.compile(r'^.* is not a valid unicode codepoint$', re.S), 'is not a valid unicode codepoint'),
+    (re.compile(r'^`maxsplits` value .* is not an integer$', re.S), '`maxsplits` value, not an integer'),
+    (re.compile(r'^`maxsplits` value .* is not -1 or non-negative$', re.S), '`maxsplits` value, not -1 or non-negative'),
+    (re.compile(r'^integer without digits: ', re.S), 'integer without digits:'),
+    (re.compile(r'^invalid base 10: ', re.S), 'invalid base 10:'),
+    (re.compile(r'^octal integer without digits: ', re.S), 'octal integer without digits:'),
+    (re.compile(r'^invalid octal digit: ', re.S), 'invalid octal digit:'),
+    (re.compile(r'^hexadecimal integer without digits: ', re.S), 'hexadecimal integer without digits:'),
+    (re.compile(r'^invalid hexadecimal digit: ', re.S), 'invalid hexadecimal digit:'),
+    (re.compile(r'^array item value .* is not a byte$', re.S), 'array item value, not a byte'),
+    (re.compile(r'^only numbers between 0 and 255 can be base64 encoded, got ', re.S), 'only numbers between 0 and 255 can be base64 encoded, got'),
+    (re.compile(r'^invalid base64 character: ', re.S), 'invalid base64 character:'),
+    (re.compile(r'^invalid format conversion code ', re.S), 'invalid format conversion code'),
+    (re.compile(r'^invalid format precision value: ', re.S), 'invalid format precision value:'),
+    (re.compile(r'^invalid format field width value: ', re.S), 'invalid format field width value:'),
+    (re.compile(r'^missing field .* in object formatting$', re.S), 'missing field'),
+]
+OTHER_CANON_TEXTS = {c for _, c in OTHER_CANON}
+# ... and those it reproduces literally
+EXACT_OTHER_PURE = ('string is not single-character', 'split delimiter is empty', 'array item must be a number, got ',
+                    'array element must be a number, got ', 'only codepoints up to 255 can be base64 encoded',
+                    'length of base64 string is not a multiple of 4',
+                    'truncated format code', 'format field width is too large', 'format precision is too large',
+                    'missing format precision digits', 'not enough array items for format, got ',
+                    'too many array items for format: expected ', 'format precision must be a number, got ',
+                    'format field width must be a number, got ', "'*' field width cannot be used with object formatting",
+                    "'*' precision cannot be used with object formatting", 'mapping keys are required with object formatting',
+                    "'c' formatting requires ", "'i' / 'd' formatting requires ", "'o' formatting requires ",
+                    "'x' / 'X' formatting requires ", "'e' / 'E' formatting requires ", "'f' / 'F' formatting requires ",
+                    "'g' / 'G' formatting requires ")
+
+
+def canon_other(d):
+    """canonical text of an `Other` message of a pure builtin, or None"""
+    if d in OTHER_CANON_TEXTS:
+        return d
+    for rx, c in OTHER_CANON:
+        if rx.match(d):
+            return c
+    if d.startswith(EXACT_OTHER_PURE):
+        return d
+    return None
+
+
 def norm(ans):
     """Normalise an answer for model/implementation comparison."""
     tr = ''
@@ -63,6 +113,9 @@ def norm(ans):
         kind = w[2]
         if kind == 'Other':
             d = vlib.unhx(w[3]).decode('utf-8', 'replace')
+            c = canon_other(d)
+            if c is not None:
+                return 'err eval Other %s' % c + tr
             if d.startswith(EXACT_OTHER):
                 return 'err eval Other %s' % d + tr
         if kind in LOOSE_DETAIL:
